@@ -228,7 +228,10 @@ def run_impl(case):
                     before._set_cutoff(int(y.index[0]) - 1)
                     for w, _ in cv.split(y):
                         before.update(y.iloc[w], update_params=bool(o[4]))
-                        singles.append([int(before.cutoff), _ser(before.predict(fhcv))])
+                        p1 = before.predict(fhcv)
+                        # same canonical label as _preds: a single-step result carries no labels
+                        singles.append([int(p1.index[0]) - fhcv[0] if len(fhcv) == 1
+                                        else int(before.cutoff), _ser(p1)])
                     st["singles"] = singles
                     st["windows"] = [[int(i) for i in w] for w, _ in cv.split(y)]
                 except Exception as e:
@@ -480,7 +483,9 @@ def _gen_history(rng, spec, tier, fh_mode=None, max_ops=6, allow_fit=True, allow
                     ln = rng.randint(13, 15)
             else:
                 ln = rng.randint(4, 9)
-                overlap = rng.random() < 0.2
+                # overlapping update_predict feeds windows that end before the remembered data do
+                # (not time-ordered for the parts of a composite): leaves only
+                overlap = rng.random() < 0.2 and spec["t"] in ("rec", "naive")
                 cv = _gen_cv(rng, ln, sww=True if overlap else None,
                              contiguous=spec["t"] not in ("rec", "naive"))
                 if stack:
@@ -508,34 +513,42 @@ def _gen_history(rng, spec, tier, fh_mode=None, max_ops=6, allow_fit=True, allow
 
 
 def _first_refit_before_fh(case):
-    """does the history reach an update that refits before any horizon has been given?  (exact
-    replay of which calls store a horizon; this is the matcher key of finding F-C10-1)"""
-    have = case["fh0"] is not None
+    """does the history reach an update that refits before the refitting forecaster has been given
+    any horizon?  (exact replay of which calls store a horizon where; this is the matcher key of
+    finding F-C10-1).  A composite hands its horizon to its parts only when it predicts, so
+    update_predict_single(y, fh) on a composite updates parts that have none yet."""
+    have = case["fh0"] is not None          # the forecaster's own stored horizon
+    parts = have                            # ... and that of the parts of a composite
     window_fc = case["spec"]["t"] == "naive"
+    composite = case["spec"]["t"] in ("ens", "pipe", "mux", "stack")
     for o in case["ops"]:
         k = o[0]
         if k == "predict":
             if o[1] is None and not have:
                 return False
-            have = True
+            have = parts = True
         elif k == "ups":
             if o[3] is None and not have:
                 return False
             have = True
+            if o[4] and composite and not parts:
+                return True
+            parts = True
         elif k == "update":
-            if o[3] and not have:
+            if o[3] and not (parts if composite else have):
                 return True
         elif k == "updpred":
             if o[3] is None and not have:
                 return False
-            if o[4] and not have:
+            if o[4] and not (parts if composite else have):
                 return True
             if not window_fc:
-                have = True
+                have = parts = True
         elif k == "fit":
             if o[3] is None and not have:
                 return False
             have = have or o[3] is not None
+            parts = have
     return False
 
 
